@@ -32,6 +32,12 @@ def run_check(pid, tier, seed, replay=None):
     if not pc["ok"] or pc["discharged"] != pc["obligations"]:
         problems.append(("proof", "proof obligations of Properties_%s.v no longer check (%d/%d): %s" %
                          (pid, pc["discharged"], pc["obligations"], pc["log"][-600:]), None))
+    tie = None
+    if getattr(prop, "SOURCE_TIE", None):
+        tie = core.source_tie(rundir, prop.SOURCE_TIE)
+        if not tie["ok"]:
+            problems.append(("proof", "source tie: what lib/srcgen.py regenerated from /repo's sources is no longer proved equal to the specification objects "
+                             "(coq_tie/Tie_Source.v: %s): %s" % (", ".join(tie["failed"]), tie["log"][-500:]), dict(key="source-tie " + ",".join(tie["failed"]))))
     chk = None
     if tier == "thorough" and not replay and pc["ok"]:
         chk = core.coqchk_property(pid)
@@ -217,6 +223,8 @@ def run_check(pid, tier, seed, replay=None):
                class_histogram=dict(allcls.most_common(40)), samples=samples[:8],
                correspondence_mismatches=total_mism, repo_hash=core.repo_hash(), notes=notes[:10])
     cov.update(extra_cov)
+    if tie: cov["source_tie"] = dict(translator="lib/srcgen.py (regenerated from /repo/src on this run)", generated_sha256=tie["gen_sha"], theorems=tie["theorems"],
+                                     checked=tie["ok"], checker_cmd="coqc -Q coq HV -Q <run> GEN Gen_Source.v Tie_Source.v", print_assumptions=sorted(set(tie["assumptions"])))
     if chk: cov["coqchk"] = dict(cmd=chk["cmd"], accepted=chk["ok"], axioms=chk["axioms"], wall_s=chk["wall_s"])
     core.write_evidence(pid, tier, seed, cov, time.monotonic() - t0, nviol,
                         assumptions=getattr(prop, "ASSUMPTIONS", []))
